@@ -6,7 +6,7 @@ rows, strengthened = [], 0
 for f in sorted(glob.glob(os.path.join(V, "seeded", "*", "meta.json"))):
     m = json.load(open(f))
     c = " ".join(m["checks_that_catch_it"].split())
-    mark = bool(re.search(r"only after|after strengthening|- after |in response to this seed|missed before|after adding", c))
+    mark = bool(re.search(r"only after|after strengthening|- after |in response to this seed|missed before|after adding|needed the |now runs in a forked", c))
     strengthened += mark
     rows.append("| `%s` | %s | %s | %s%s |" % (os.path.basename(os.path.dirname(f)), m["breaks_property"], " ".join(m["needs_to_manifest"].split()).replace("|", "/"),
                                               "✚ " if mark else "", c.replace("|", "/")))
